@@ -58,6 +58,8 @@ def scenarios(tier, seed):
             add("mll", n=2, lik=lk, mean="constant", priors=False, batch=2, call_noise=True)
         add("mll", n=3, lik="gaussian", mean="constant", priors="shared", batch=0)
         add("loo", n=2, lik="gaussian", priors="shared")
+    add("multitask_priors", rank=1)
+    add("multitask_priors", rank=0)
     return out
 
 
@@ -244,6 +246,66 @@ def loo(S, n, lik, priors):
         quad = np.sum(r * gauss_inverse_solve(A, r))
         ref_m.append(((quad + sym_log(_det(A)[()]) + Sym.const(n * LOG2PI)) * Sym.const(-0.5) + _sum_prior(terms, (), ())) / Sym.const(float(n)))
     S.prove_eq(mll_b, np.array(ref_m, dtype=object), "exact MLL per target vector (shared inputs)")
+
+
+def multitask_priors(S, rank):
+    """MultitaskGaussianLikelihood with task_prior (rank > 0: a prior on the task-noise covariance F F^T + s2 I) and noise_prior:
+       the exact MLL with the priors minus the MLL of the same model without them = the sum of the registered log prior
+       densities / (n t).  (The dense Gaussian part is decided by the other scenarios; here the two evaluations share it.)"""
+    from gpytorch import kernels as K, priors as P
+    n, t = 1, 2
+    x = torch.zeros(n, 1)
+    y = S.randn(n, t); S.sym_tensor(y, "y")
+
+    class MT(gpytorch.models.ExactGP):
+        def __init__(self_, lik):
+            super().__init__(x, y, lik)
+            self_.mean_module = gpytorch.means.MultitaskMean(gpytorch.means.ConstantMean(), num_tasks=t)
+            self_.covar_module = K.MultitaskKernel(K.RBFKernel(), num_tasks=t, rank=1)
+
+        def forward(self_, xx):
+            # (dense prior covariance: the Kronecker-structured solve goes through an eigendecomposition, which has no rational contract)
+            import linear_operator
+            return gpytorch.distributions.MultitaskMultivariateNormal(self_.mean_module(xx), linear_operator.to_linear_operator(dense(self_.covar_module(xx))))
+
+    def mk(with_priors):
+        kw = dict(task_prior=P.NormalPrior(0.0, 1.0)) if (with_priors and rank) else {}
+        if with_priors:
+            kw["noise_prior"] = P.GammaPrior(2.0, 2.0)
+        lk = gpytorch.likelihoods.MultitaskGaussianLikelihood(num_tasks=t, rank=rank, **kw)
+        return lk, MT(lk)
+
+    lik_a, model_a = mk(True)
+    lik_b, model_b = mk(False)
+    for p in list(model_a.parameters()) + list(model_b.parameters()):
+        p.requires_grad_(False)
+    declare_params(S, model_a, "p_", scale=0.4)
+    with S.mode():
+        src = dict(model_a.named_parameters())
+        for nme, p in model_b.named_parameters():
+            p.copy_(src[nme])
+        model_a.train(); model_b.train()
+        va = S.must_not_raise("exact MLL of a multitask model whose likelihood has a task_prior / noise_prior (rank %d)" % rank,
+                              lambda: gpytorch.mlls.ExactMarginalLogLikelihood(lik_a, model_a)(model_a(x), y))
+        vb = gpytorch.mlls.ExactMarginalLogLikelihood(lik_b, model_b)(model_b(x), y)
+        sig = as_sym_arr(SH.get(lik_a.noise)).reshape(-1)[0]
+        gam = lambda v: Sym.const(2.0 * math.log(2.0) - math.lgamma(2.0)) + sym_log(v) - v * Sym.const(2.0)
+        tot = gam(sig)
+        if rank:
+            F = as_sym_arr(SH.get(lik_a.task_noise_covar_factor.data))
+            C = F @ F.T
+            for i in range(t):
+                C[i, i] = C[i, i] + sig
+            for i in range(t):
+                for j in range(t):
+                    tot = tot + (C[i, j] * C[i, j]) * Sym.const(-0.5) - Sym.const(0.5 * LOG2PI)
+        else:
+            tn = as_sym_arr(SH.get(lik_a.task_noises)).reshape(-1)
+            for i in range(t):
+                tot = tot + gam(tn[i])
+    diff = as_sym_arr(SH.get(va)).reshape(-1)[0] - as_sym_arr(SH.get(vb)).reshape(-1)[0]
+    S.prove_eq(np.array([diff], dtype=object), np.array([tot / Sym.const(float(n * t))], dtype=object),
+               "MLL with likelihood priors - MLL without = sum of the registered log prior densities / (n t) (rank %d)" % rank)
 
 
 def sum_mll(S, n1, n2):
